@@ -23,7 +23,11 @@ PROP = {
         "rule": "cases from one PRNG (VERIF_SEED): 1-4 initial subscribers with send buffers 1-4, 5-40 steps mixing sends, consumes of 1-3 items, "
                 "late subscribes, receiver drops, with four consumption-rate classes; the quiescence barrier runs after every step in two "
                 "thirds of the cases and after a random half of the steps otherwise; every 8th case is repeated with the receivers "
-                "shipped over a chmux connection and random transport stalls (signature prefix remote:, oracle only); a case is "
+                "shipped over a chmux connection and random transport stalls (signature prefix remote:, oracle only; half of them end with a "
+                "subscriber dropped at the remote endpoint whose failure is noticed by a send while the others lag; send must not fail while a "
+                "subscriber is alive); every 16th case lets 2-4 OS threads send 20-120 values each concurrently on clones of the sender "
+                "(value type with a slow Clone; subscribers with room for everything must obtain every value, per-thread order kept, every "
+                "send Ok -- send is linearizable); a case is "
                 "non-trivial if a subscriber lagged, was dropped or joined late; distinct = distinct input",
         "assumptions": [
             "Tokio bounded mpsc semantics as stated in Rch/Broadcast.v (FIFO, capacity = messages + outstanding permits, close fails waiters)",
